@@ -100,6 +100,21 @@ theorem generated_verify_matches :
     (false, true, Verify.certRequired) ∈ Generated.C19.verifyObserved ∧
     (true, true, Verify.certRequired) ∈ Generated.C19.verifyObserved := by decide
 
+/-- `mk_ssl_contexts_from_folder`: a CA file that is named (default `cacert.pem`) but missing refuses -/
+theorem missing_ca_file_refused (k c : Bool) : fromFolder k c true false = .fileNotFound := by
+  cases k <;> cases c <;> rfl
+
+/-- ... so whenever a CA file is named, a returned context pair requires the peer certificate on both sides: no pair with a
+    `CERT_NONE` server side is ever returned -/
+theorem named_ca_never_degrades (k c p : Bool) (cl sv : Verify) (h : fromFolder k c true p = .contexts cl sv) :
+    cl = .certRequired ∧ sv = .certRequired := by
+  cases k <;> cases c <;> cases p <;> simp [fromFolder, verifyMode] at h <;> exact ⟨h.1.symm, h.2.symm⟩
+
+/-- the decision table observed on real folders (every combination of present / missing files) is the model's -/
+theorem generated_folder_matches :
+    Generated.C19.folderObserved.length = 16 ∧
+    ∀ e ∈ Generated.C19.folderObserved, fromFolder e.1 e.2.1 e.2.2.1 e.2.2.2.1 = e.2.2.2.2 := by decide
+
 /-- every model site was found in the messages of the real exchange, and nothing else (an unmapped address context makes
     the translator fail) -/
 theorem generated_sites_complete : ∀ s : Site, s ∈ Generated.C19.observedSites := by
